@@ -75,6 +75,11 @@ def gen_error(rng):
         if v is not None:
             fields.append([f, v])
     rng.shuffle(fields)
+    if fields and rng.random() < 0.08:
+        # a field element occurring twice in one rpc-error: the later one is what the error object reports
+        k = rng.choice([f for f in fields if f[0] != 'error-info'] or fields)
+        if k[0] != 'error-info':
+            fields.insert(rng.randint(0, len(fields)), [k[0], rng.choice(['dup', 'error', 'warning', 'x y'])])
     return fields
 
 
@@ -209,7 +214,35 @@ class C06(Check):
             return {'raised': 'other:' + type(e).__name__}
         return {'raised': False, 'ok': r.ok, 'errors': [err_row(x) for x in r.errors]}
 
+    def doc_tokens(self, case):
+        """The reply document as the driver's tree tokens: base-namespace elements under their local names, others as {ns}local."""
+        import xml.etree.ElementTree as ET
+
+        def name(tag):
+            if tag.startswith('{' + BASE_NS + '}'):
+                return tag[len(BASE_NS) + 2:]
+            return tag
+
+        def toks(el):
+            kids = []
+            if el.text:
+                kids.append(['T', hexs(el.text)])
+            for c in el:
+                kids.append(toks(c))
+                if c.tail:
+                    kids.append(['T', hexs(c.tail)])
+            out = ['E', hexs(name(el.tag)), str(len(el.attrib))]
+            for k, v in el.attrib.items():
+                out += [hexs(name(k)), hexs(v)]
+            out.append(str(len(kids)))
+            for k in kids:
+                out += k
+            return out
+        return toks(ET.fromstring(reply_xml(case, 'MID').encode('utf-8')))
+
     def model_lines(self, case):
+        if case.get('doc', True):
+            return ['re doc %d %s %s' % (case['mode'], hlist(hexs(p) for p in effective_pats(case)), ' '.join(self.doc_tokens(case)))]
         errs = []
         for e in case['errs']:
             d = dict(e)
@@ -219,21 +252,36 @@ class C06(Check):
 
     def model_obs(self, case, outs):
         t = outs[0].split(' ')
-        # raised|reply  severity  n
+        # raised|reply  severity  n  [error fields as the model extracted them from the document]
+        rows = None
+        if len(t) >= 4:
+            rows = []
+            for e in unhlist(t[3]):
+                f = e.split(';')
+                rows.append([None if x == '-' else unhexs(x) for x in f[:6]] + [f[6] == 'p'])
         if t[0] == 'raised':
-            return {'raised': True, 'severity': None if t[1] == '-' else unhexs(t[1]), 'n': None if t[2] == '-' else int(t[2])}
-        return {'raised': False, 'ok': t[1] == '1', 'nerr': int(t[2])}
+            return {'raised': True, 'severity': None if t[1] == '-' else unhexs(t[1]), 'n': None if t[2] == '-' else int(t[2]), 'rows': rows}
+        return {'raised': False, 'ok': t[1] == '1', 'nerr': int(t[2]), 'rows': rows}
 
     def compare(self, case, io, mo):
         if mo is None:
             return None
+        mo = dict(mo)
+        mrows = mo.pop('rows', None)
         if io.get('raised') is True:
             got = {'raised': True, 'severity': io['severity'], 'n': io['n']}
         elif io.get('raised') is False:
             got = {'raised': False, 'ok': io['ok'], 'nerr': len(io['errors'])}
         else:
             got = io
-        return None if got == mo else 'impl=%r model=%r' % (got, mo)
+        if got != mo:
+            return 'impl=%r model=%r' % (got, mo)
+        if mrows is not None and io.get('raised') in (True, False):
+            # field order of FIELDS: type, tag, severity, app-tag, path, message, info
+            irows = [[r[0], r[1], r[2], r[3], r[4], r[5], r[6] is not None] for r in io['errors']]
+            if irows != mrows:
+                return 'error fields extracted from the document differ: impl=%r model=%r' % (irows[:3], mrows[:3])
+        return None
 
     def oracle(self, case, io):
         if io.get('raised') not in (True, False):
